@@ -369,6 +369,10 @@ def run(chk, repo):
     from rules.shared import optname
     chk.clauses.append('C13.h (shared R-THREAD) an option value bound to a name that is itself a CLI option carries that very option')
     optname(chk, repo, 'C13.h', ['cli.index_gvf'], floor=0)
+    # ------------------------------------------------------------------ shared: no cache on mutable results
+    from rules.shared import memo_shared
+    chk.clauses.append('C13.i no parsing / record function of seqvar or circ is memoised while returning a mutable container (parsed records must not share attribute dictionaries)')
+    memo_shared(chk, repo, 'C13.i', ['seqvar', 'circ'], floor=0)
 
 def byte_offsets(chk, repo, rid, qual):
     """Typestate on the line variable of a pointer generator: offsets are advanced by len() of the RAW
